@@ -82,8 +82,9 @@ def build(eng, pattern, folders, opts, sym, names=None):
     if opts.get("packcrc"):
         layout["packcrc"] = True
         layout["packcrcs"] = [eng.sym_int("packcrc%d" % j, 32) for j in range(nf)]
-        for c in layout["packcrcs"]:
+        for c, p in zip(layout["packcrcs"], packs):
             eng.assume(eng.range_cond(c, 32))
+            eng.assume(z3.Implies(eng.lift(p) == 0, eng.lift(c) == 0))  # valid archive: CRC32 of zero bytes is 0
     if opts.get("packpos"):
         layout["packpos"] = sym["packpos"]
         eng.assume(eng.range_cond(sym["packpos"], 40))
